@@ -35,7 +35,8 @@ def parsePass (s : String) : Option PassT :=
           allSome ((if maps = "-" then [] else maps.splitOn ";").map fun r => nats r ","),
           allSome ((if rules = "-" then [] else rules.splitOn ";").map parseRule) with
     | some [ml, mn, mx, nc, nt, ns, nsu], some cols, some starts, some rows, some maps, some rules =>
-      some { maxLoop := ml, minPre := mn, maxPre := mx, numColumns := nc, numTransition := nt, numStates := ns, numSuccess := nsu,
+      -- `Pass::readPass`: `if (m_iMaxLoop < 1) m_iMaxLoop = 1;`
+      some { maxLoop := max ml 1, minPre := mn, maxPre := mx, numColumns := nc, numTransition := nt, numStates := ns, numSuccess := nsu,
              cols := cols.toArray, starts := starts.toArray, trans := (rows.map List.toArray).toArray, ruleMap := maps.toArray, rules := rules.toArray }
     | _, _, _, _, _, _ => none
   | _ => none
